@@ -138,7 +138,7 @@ Proof. intros H Hl. rewrite envmap_spec by assumption. unfold lookup. now rewrit
 Definition addrb (k : bytes) (f : bytes * bytes * bool * val) : bool :=
   f_exported f && (bytes_eqb (env_key f) k || bytes_eqb (f_name f) k).
 Definition wf_struct (fs : list (bytes * bytes * bool * val)) : Prop :=
-  NoDup (map f_name fs) /  (forall f g, In f fs -> In g fs -> f_exported f = true -> f_exported g = true -> env_key f = env_key g -> f = g) /  (forall f g, In f fs -> In g fs -> f_exported f = true -> env_key f = f_name g -> f = g).
+  NoDup (map f_name fs) /\ (forall f g, In f fs -> In g fs -> f_exported f = true -> f_exported g = true -> env_key f = env_key g -> f = g) /\ (forall f g, In f fs -> In g fs -> f_exported f = true -> env_key f = f_name g -> f = g).
 Lemma nodup_name_inj fs f g : NoDup (map f_name fs) -> In f fs -> In g fs -> f_name f = f_name g -> f = g.
 Proof.
   induction fs as [|h r IH]; cbn; [tauto|]. intros Hn Hf Hg E. inversion Hn as [|? ? Hh Hr]; subst.
@@ -187,6 +187,23 @@ Proof.
   unfold entries. induction fs as [|h r IH]; [reflexivity|]. intro H. cbn. rewrite assocb_app.
   rewrite field_entries_miss by (apply H; now left). apply IH. intros g Hg. apply H. now right.
 Qed.
+Lemma field_by_name_In fs n f : field_by_name fs n = Some f -> In f fs /\ f_name f = n.
+Proof.
+  induction fs as [|g r IH]; cbn; [discriminate|]. destruct (bytes_eqb_spec (f_name g) n).
+  - intros [= ->]. auto.
+  - intro H. destruct (IH H). auto.
+Qed.
+Lemma field_by_tag_In fs n v : field_by_tag fs n = Some v ->
+  exists f, In f fs /\ f_exported f = true /\ f_val f = v /\ tag_name (f_tag f) = n /\ f_tag f <> [].
+Proof.
+  induction fs as [|g r IH]; cbn; [discriminate|].
+  destruct (negb (bytes_eqb (f_tag g) []) && f_exported g && bytes_eqb (tag_name (f_tag g)) n) eqn:E.
+  - intros [= <-]. apply andb_prop in E. destruct E as [E E3]. apply andb_prop in E. destruct E as [E1 E2].
+    exists g. repeat split; auto.
+    + now apply bytes_eqb_eq.
+    + intro H. rewrite H in E1. discriminate.
+  - intro H. destruct (IH H) as (f & ? & ? & ? & ? & ?). exists f. auto.
+Qed.
 Lemma field_by_tag_hit fs k f : k <> [] -> In f fs -> f_exported f = true -> f_tag f <> [] -> tag_name (f_tag f) = k ->
   (forall g, In g fs -> addrb k g = true -> g = f) -> field_by_tag fs k = Some (f_val f).
 Proof.
@@ -194,8 +211,8 @@ Proof.
   destruct (negb (bytes_eqb (f_tag h) []) && f_exported h && bytes_eqb (tag_name (f_tag h)) k) eqn:E.
   - apply andb_prop in E. destruct E as [E E3]. apply andb_prop in E. destruct E as [E1 E2].
     apply bytes_eqb_eq in E3. assert (h = f); [|congruence]. apply Hu; [now left|].
-    unfold addrb. rewrite E2. cbn. unfold env_key. rewrite E3.
-    destruct k; [congruence|]. cbn. rewrite bytes_eqb_refl. reflexivity.
+    unfold addrb. rewrite E2. cbn [andb]. apply orb_true_iff. left. unfold env_key. rewrite E3.
+    destruct k; [congruence|]. cbn [nonempty]. apply bytes_eqb_refl.
   - destruct Hin as [->|Hin].
     + exfalso. rewrite He, Hn, bytes_eqb_refl in E. destruct (bytes_eqb_spec (f_tag f) []); [congruence|discriminate].
     + apply IH; auto. intros g Hg. apply Hu. now right.
@@ -204,8 +221,9 @@ Lemma field_by_tag_miss fs k : k <> [] -> (forall g, In g fs -> addrb k g = fals
 Proof.
   intros Hk H. destruct (field_by_tag fs k) eqn:E; [|reflexivity].
   apply field_by_tag_In in E. destruct E as (f & Hin & He & _ & Hn & Ht).
-  specialize (H f Hin). unfold addrb in H. rewrite He in H. cbn in H. unfold env_key in H. rewrite Hn in H.
-  destruct k; [congruence|]. cbn in H. rewrite bytes_eqb_refl in H. discriminate.
+  specialize (H f Hin). unfold addrb in H. rewrite He in H. cbn [andb] in H. apply orb_false_elim in H.
+  destruct H as [H _]. unfold env_key in H. rewrite Hn in H.
+  destruct k; [congruence|]. cbn [nonempty] in H. rewrite bytes_eqb_refl in H. discriminate.
 Qed.
 Lemma field_by_name_None fs k : field_by_name fs k = None -> forall g, In g fs -> f_name g <> k.
 Proof.
@@ -267,23 +285,6 @@ Proof.
 Qed.
 
 (* ---- 6. path resolution ---- *)
-Lemma field_by_name_In fs n f : field_by_name fs n = Some f -> In f fs /\ f_name f = n.
-Proof.
-  induction fs as [|g r IH]; cbn; [discriminate|]. destruct (bytes_eqb_spec (f_name g) n).
-  - intros [= ->]. auto.
-  - intro H. destruct (IH H). auto.
-Qed.
-Lemma field_by_tag_In fs n v : field_by_tag fs n = Some v ->
-  exists f, In f fs /\ f_exported f = true /\ f_val f = v /\ tag_name (f_tag f) = n /\ f_tag f <> [].
-Proof.
-  induction fs as [|g r IH]; cbn; [discriminate|].
-  destruct (negb (bytes_eqb (f_tag g) []) && f_exported g && bytes_eqb (tag_name (f_tag g)) n) eqn:E.
-  - intros [= <-]. apply andb_prop in E. destruct E as [E E3]. apply andb_prop in E. destruct E as [E1 E2].
-    exists g. repeat split; auto.
-    + now apply bytes_eqb_eq.
-    + intro H. rewrite H in E1. discriminate.
-  - intro H. destruct (IH H) as (f & ? & ? & ? & ? & ?). exists f. auto.
-Qed.
 (* an unexported field is never reached, neither by Go name nor by json tag *)
 Lemma resolve_struct_exported fs n v : resolve_struct fs n = Some v ->
   exists f, In f fs /\ f_exported f = true /\ f_val f = v /\ (f_name f = n \/ tag_name (f_tag f) = n).
